@@ -242,10 +242,18 @@ def locate(locator):
             if not rest2.startswith(".."): raise ValueError("range needs /a/ .. /b/")
             rx2, _ = split_regex_directive(rest2[2:])
             body = src.text[src.toks[it.body_open][1]:src.toks[it.end_tok][2]]
-            ms1 = list(re.finditer(rx1, body)); ms2 = list(re.finditer(rx2, body))
-            if len(ms1) != 1: raise LostAnchor("%s fn %s: range anchor /%s/ matches %d times" % (relpath, name, rx1, len(ms1)))
+            ms2 = list(re.finditer(rx2, body))
             if len(ms2) != 1: raise LostAnchor("%s fn %s: range anchor /%s/ matches %d times" % (relpath, name, rx2, len(ms2)))
-            off1 = src.toks[it.body_open][1] + ms1[0].start()
+            if rx1.startswith("\\A"):
+                # `\A...` as first anchor: the range starts with the FIRST statement of the body (so that the lifted pieces of a
+                # function cover every statement of it: nothing may stand before the first piece)
+                off1 = src.toks[src.next_sig(it.body_open)][1]
+                if not re.match(rx1[2:], src.text[off1:]):
+                    raise LostAnchor("%s fn %s: the body does not start with /%s/ (a statement before the first lifted piece is in no verified piece)" % (relpath, name, rx1[2:]))
+            else:
+                ms1 = list(re.finditer(rx1, body))
+                if len(ms1) != 1: raise LostAnchor("%s fn %s: range anchor /%s/ matches %d times" % (relpath, name, rx1, len(ms1)))
+                off1 = src.toks[it.body_open][1] + ms1[0].start()
             off2 = src.toks[it.body_open][1] + ms2[0].start()
             if off2 <= off1: raise LostAnchor("%s fn %s: range anchors out of order" % (relpath, name))
             first = last = None
